@@ -1,8 +1,66 @@
-import YouVerif.C20.Model
+/-
+C20 — property theorems about the pool model (`Model.lean`, the model of the REPAIRED code: fixes 971bb1a, 5bc8097).
+
+Status (see props/C20.json):
+* full, for all inputs: the list-level and function-level theorems below (what `validateTx` admits, what the
+  strict `Filter` keeps, the demotion gap step, the virtual-nonce clamp, `enqueueTx` preserving the per-account
+  invariant, consequences of the invariant: disjointness, gap-free range);
+* `_partial`: invariant preservation is proved for the admission path into the queue only;
+* statement only: `pool_invariant_statement` (preservation by every operation) — checked by correspondence + oracle.
+-/
+import YouVerif.C20.Proofs
 namespace YouVerif.C20.Props
 open YouVerif.C20
 
-/-- `validateTx` never admits a transaction the chain state cannot pay for or the block cannot hold. -/
+/-! ## the invariant -/
+
+/-- The pool invariant: per-account clauses (`AllI` = `AcctJ` for every account + virtual-nonce clause) and the
+global index clauses. -/
+structure Inv (s : State) : Prop where
+  accounts : AllI s
+  allNodup : s.all.Nodup
+  /-- `all` is exactly the union of pending and queued -/
+  allUnion : ∀ t, t ∈ s.all ↔ (t ∈ (s.acct t.sender).pending.txs ∨ t ∈ (s.acct t.sender).queue.txs)
+  /-- every pooled transaction has a (live) entry in the priced heap -/
+  pricedCovers : ∀ t ∈ s.all, t ∈ s.priced
+
+/-- FULL STATEMENT (not proved; sampled by correspondence + the implementation-level oracle after every op):
+every operation preserves the invariant.  Missing: preservation lemmas for removeTx, promoteAccount,
+demoteAccount, the truncation loops and the reset path, and the global `all`/`priced` clauses. -/
+def pool_invariant_statement : Prop := ∀ (s : State) (op : Op), Inv s → Inv (step s op).1
+
+/-- the limits in the form the code enforces them, after an operation that ends with a reorg run -/
+def CapsAfterReorg (s : State) : Prop :=
+  (s.pendingCount ≤ s.cfg.globalSlots ∨ ∀ a, (s.acct a).isLocal = false → (s.acct a).pending.txs.length ≤ s.cfg.accountSlots) ∧
+  (s.queuedCount ≤ s.cfg.globalQueue ∨ ∀ a, (s.acct a).isLocal = false → (s.acct a).queue.txs = [])
+
+/-- FULL STATEMENT (not proved; checked by the oracle): limits after add/reset/promote. The flat per-account
+queue limit is false of the code (known finding F-C20a). -/
+def caps_after_reorg_statement : Prop :=
+  ∀ (s : State) (op : Op), Inv s → (match op with | .add .. | .reset .. | .promote .. => True | _ => False) →
+    CapsAfterReorg (step s op).1
+
+/-- A freshly created pool satisfies the invariant. -/
+theorem init_invariant (cfg : Config) (pl gl : Nat) (accts : List (Nat × Nat)) : Inv (init cfg pl gl accts) := by
+  have hac : ∀ a, (((init cfg pl gl accts).acct a).pending.txs = [] ∧ ((init cfg pl gl accts).acct a).queue.txs = [] ∧
+      ((init cfg pl gl accts).acct a).pn = none ∧ ((init cfg pl gl accts).acct a).beat = 0) := by
+    intro a
+    simp only [State.acct, init, List.getD_eq_getElem?_getD, List.getElem?_map]
+    cases accts[a]? <;> simp
+  refine ⟨⟨fun a => ?_, fun b => ?_⟩, by simp [init], ?_, by simp [init]⟩
+  · obtain ⟨h1, h2, _, h4⟩ := hac a
+    constructor <;> simp [h1, h2, h4, Sorted] <;> exact .nil _
+  · obtain ⟨h1, _, h3, _⟩ := hac b
+    simp [PN, Account.pnGet, h1, h3]
+  · intro t
+    obtain ⟨h1, h2, _, _⟩ := hac t.sender
+    rw [h1, h2]
+    simp [init]
+
+/-! ## admission -/
+
+/-- `validateTx` admits only transactions the chain state can pay for, that fit the block, are not below the
+state nonce and come from a known account. -/
 theorem validate_ok_affordable (s : State) (t : Tx) (l : Bool) (h : s.validateTx t l = none) :
     t.cost ≤ (s.acct t.sender).balance ∧ t.gas ≤ s.maxGas ∧ (s.acct t.sender).nonce ≤ t.nonce ∧ t.sender < s.n := by
   unfold State.validateTx at h
@@ -10,5 +68,105 @@ theorem validate_ok_affordable (s : State) (t : Tx) (l : Bool) (h : s.validateTx
   simp_all
   repeat (split at h; · simp at h)
   omega
+
+/-- An admitted transaction that does not overlap a pending nonce lies above the whole pending run. -/
+theorem admitted_lies_above_pending (s : State) (t : Tx) (l : Bool) (hI : AllJ s) (h : s.validateTx t l = none)
+    (hno : getN (s.acct t.sender).pending.txs t.nonce = none) :
+    (s.acct t.sender).nonce + (s.acct t.sender).pending.txs.length ≤ t.nonce :=
+  chain_free_slot (hI t.sender).pChain (validate_ok_affordable s t l h).2.2.1 (getN_none hno)
+
+/-- PARTIAL (one path of `add`): queueing an admitted, non-overlapping transaction preserves the per-account
+invariant of every account and touches nothing but that account's queue. -/
+theorem add_queue_path_preserves_partial (s : State) (t : Tx) (l : Bool) (hI : AllI s) (h : s.validateTx t l = none)
+    (hno : getN (s.acct t.sender).pending.txs t.nonce = none) : AllI (s.enqueueTx t).1 := by
+  have := enqueueTx_spec hI.1 t (admitted_lies_above_pending s t l hI.1 h hno)
+  refine ⟨this.1, fun b => ?_⟩
+  have hb := hI.2 b
+  unfold PN Account.pnGet at *
+  have e := this.2.2.2.2 b
+  rw [e.1, e.2.1, e.2.2.1]; exact hb
+
+/-- `enqueueTx` under its guard preserves the per-account invariant (any caller: add, demotion). -/
+theorem enqueue_preserves (s : State) (t : Tx) (hI : AllJ s)
+    (hpre : (s.acct t.sender).nonce + (s.acct t.sender).pending.txs.length ≤ t.nonce) : AllJ (s.enqueueTx t).1 :=
+  (enqueueTx_spec hI t hpre).1
+
+/-! ## what the invariant gives -/
+
+/-- no transaction is both pending and queued -/
+theorem pending_queue_disjoint (ac : Account) (a mg : Nat) (h : AcctJ ac a mg) : ∀ t ∈ ac.pending.txs, t ∉ ac.queue.txs := by
+  intro t hp hq
+  have := h.pChain.bounds t hp
+  have := h.qAbove t hq
+  omega
+
+/-- pending nonces are exactly `nonce, nonce+1, …` -/
+theorem pending_gap_free (ac : Account) (a mg : Nat) (h : AcctJ ac a mg) :
+    ac.pending.txs.map (·.nonce) = List.range' ac.nonce ac.pending.txs.length := h.pChain.length_eq
+
+/-- queued transactions lie strictly above every pending one -/
+theorem queued_above_pending (ac : Account) (a mg : Nat) (h : AcctJ ac a mg) :
+    ∀ p ∈ ac.pending.txs, ∀ q ∈ ac.queue.txs, p.nonce < q.nonce := by
+  intro p hp q hq
+  have := h.pChain.bounds p hp
+  have := h.qAbove q hq
+  omega
+
+/-! ## demotion after a reset (repaired by 971bb1a) -/
+
+/-- What `demoteUnexecutables` keeps pending after its gap step is gap-free from the state nonce, whatever a reorg
+left in the list. -/
+theorem demote_leaves_gap_free (l : List Tx) (n : Nat) (hs : Sorted l) (hge : ∀ t ∈ l, n ≤ t.nonce) :
+    Chain n (l.take (contigRun l.length l n)) := demote_gap_step hs hge
+
+/-- the rule before the repair: postpone everything only when the FIRST nonce is missing -/
+def oldGapStep (l : List Tx) (n : Nat) : List Tx := if !l.isEmpty && (getN l n).isNone then [] else l
+
+/-- The property was false of the code before 971bb1a: a sorted list starting at the state nonce with a hole
+(nonces 0 and 2) stayed pending as it was. -/
+theorem old_front_gap_check_counterexample :
+    ∃ (l : List Tx) (n : Nat), Sorted l ∧ (∀ t ∈ l, n ≤ t.nonce) ∧ ¬ Chain n (oldGapStep l n) := by
+  refine ⟨[{ (default : Tx) with nonce := 0 }, { (default : Tx) with nonce := 2 }], 0, ?_, ?_, ?_⟩
+  · simp [Sorted]
+  · simp
+  · intro h
+    have h1 : oldGapStep [{ (default : Tx) with nonce := 0 }, { (default : Tx) with nonce := 2 }] 0 =
+        [{ (default : Tx) with nonce := 0 }, { (default : Tx) with nonce := 2 }] := by decide
+    rw [h1] at h
+    cases h with
+    | cons _ h2 => cases h2 with
+      | cons h3 _ => simp at h3
+
+/-- the strict `Filter` keeps only payable transactions that fit the block, short cut included -/
+theorem filter_keeps_affordable (l : TxList) (strict : Bool) (costLimit gasLimit : Nat)
+    (hcaps : ∀ t ∈ l.txs, t.cost ≤ l.costcap ∧ t.gas ≤ l.gascap) :
+    ∀ t ∈ (l.filter strict costLimit gasLimit).2.2.txs, t.cost ≤ costLimit ∧ t.gas ≤ gasLimit :=
+  filter_kept_affordable l strict costLimit gasLimit hcaps
+
+/-! ## virtual nonce (repaired by 5bc8097) -/
+
+theorem virtual_nonce_not_below_state_nonce (ac : Account) (n : Nat) (h : ac.nonce ≤ ac.pnGet) :
+    ac.nonce ≤ (ac.setIfLower n).pnGet := (setIfLower_ge ac n h).1
+
+/-- `setIfLower` before the repair -/
+def oldSetIfLower (ac : Account) (n : Nat) : Account :=
+  if ac.pnGet ≤ n then { ac with pn := some ac.pnGet } else { ac with pn := some n }
+
+theorem old_setIfLower_counterexample :
+    ∃ (ac : Account) (n : Nat), ac.nonce ≤ ac.pnGet ∧ ¬ ac.nonce ≤ (oldSetIfLower ac n).pnGet :=
+  ⟨{ nonce := 1 }, 0, by decide, by decide⟩
+
+/-! ## non-vacuity -/
+
+/-- a concrete account with two pending and one queued transaction satisfies the per-account invariant -/
+def exTx (n : Nat) : Tx := { id := n, sender := 7, nonce := n, price := 0, gas := 0, value := 0, intr := 0, flags := 0 }
+
+example : AcctJ { nonce := 3, balance := 100, beat := 1, pending := { txs := [exTx 3, exTx 4] }, queue := { txs := [exTx 6] } } 7 0 := by
+  constructor <;> simp [Sorted, Tx.cost, exTx]
+  · exact .cons rfl (.cons rfl (.nil _))
+
+/-- the hypotheses of `demote_leaves_gap_free` hold for the counterexample list, and the repaired step cuts it to [0] -/
+example : (([{ (default : Tx) with nonce := 0 }, { (default : Tx) with nonce := 2 }] : List Tx).take
+    (contigRun 2 [{ (default : Tx) with nonce := 0 }, { (default : Tx) with nonce := 2 }] 0)).length = 1 := by decide
 
 end YouVerif.C20.Props
